@@ -101,7 +101,7 @@ def _params(shapes_q, shapes_t, ops=None, rhss=("sparse", "dense", "scalar")):
     return out
 
 
-@ob("C03", params=_params([(1, 3)], [(2, 2), (4,), (2, 1, 2)]), max_paths=40000, wall_s=1500,
+@ob("C03", params=_params([(1, 3), (2, 2)], [(4,), (2, 1, 2)]), max_paths=40000, wall_s=1500,
     bounds="both operands from dense symbolic arrays via to_sptensor: all 4^cells joint sparsity patterns, all signs / ties by forks; symbolic scalar")
 def binop(E, op, rhs, shape):
     """sptensor (op) sptensor|tensor|scalar == the element-wise operation on the expanded arrays"""
@@ -138,3 +138,10 @@ def unary(E, shape):
     #  so the function used here is positive on non-zero arguments)
     got = S.elemfun(lambda v: v * v * 2.0)
     E.eq(O.den(got), _ref(cx, None, lambda a, b: a * a * 2.0), "elemfun on stored values")
+
+
+@ob("C03", params=[dict(op=o) for o in OPS],
+    bounds="2x2; both operands built directly (3 and 2 stored non-zero symbolic values, overlapping in two cells) and stored in opposite relative orders")
+def binop_stored_orders(E, op):
+    """the operators pair the entries of the two operands by subscript, not by stored position"""
+    binop_body(E, op, "sparse", (2, 2), lhs="direct", lpos=((0, 1), (1, 0), (1, 1)), lorder=(2, 0, 1), rpos=((1, 1), (0, 1)), rorder=(1, 0))
